@@ -23,17 +23,18 @@ def stepOf (kind : String) (c : Cfg) : Except String (St → Obs → St) :=
 /-- stream of observations from a list: beyond the list the loop must not look (reported as `short`) -/
 def obsFn (os : List Obs) (i : Nat) : Obs := os.getD i default
 
-/-- split a token list into step events (`S x1 … xB`) and resets (`R`) -/
-def parseEvents (B : Nat) : Nat → List String → Except String (List (Ev BigF))
+/-- split a token list into step events (`S n x1 … xn`) and resets (`R`) -/
+def parseEvents : Nat → List String → Except String (List (Ev BigF))
   | 0, _ => .error "fuel"
   | _, [] => .ok []
   | fuel+1, "R" :: rest => do
-      let es ← parseEvents B fuel rest
+      let es ← parseEvents fuel rest
       return Ev.reset :: es
-  | fuel+1, "S" :: rest => do
+  | fuel+1, "S" :: n :: rest => do
+      let B ← nat n
       let (xs, rest') ← take B rest
       let v ← nums xs
-      let es ← parseEvents B fuel rest'
+      let es ← parseEvents fuel rest'
       return Ev.step v :: es
   | _, t :: _ => .error s!"bad-event:{t}"
 
@@ -138,15 +139,14 @@ def opsC20 : List (String × Handler) := [
         if it > os.length then throw "short"
         return fmtNats [it, calls, stCode s]
       | _ => throw "arity"),
-  -- c20.rtb.num maxSteps patience d tol B (S x1..xB | R)*  -> per event: stateCode nodec below
+  -- c20.rtb.num maxSteps patience d tol (S n x1..xn | R)*  -> per event: stateCode nodec below
   ("c20.rtb.num", fun ts => do
       match ts with
-      | ms :: pt :: d :: tol :: b :: rest =>
+      | ms :: pt :: d :: tol :: rest =>
         let c : Cfg := ⟨← int ms, ← int pt⟩
         let d ← num d
         let tol ← num tol
-        let B ← nat b
-        let evs ← parseEvents B (rest.length + 1) rest
+        let evs ← parseEvents (rest.length + 1) rest
         return fmtNats (rtbNumTrace c d tol RtbSt.init evs)
       | _ => throw "arity"),
   -- c20.sop.num maxSteps patience d (last loss rejectCount|-1)*  -> per step: stateCode nodec rej
